@@ -7,7 +7,10 @@ Open Scope Z_scope.
 Inductive hev :=
 | HReq (typ mid : Z) (tok : list Z) (code : Z) (reqopts : opts_t) (b : behaviour) (called : bool) (out : list owire)
 | HAge (ms : Z)
-| HTick (out : list owire).
+| HTick (out : list owire)
+| HDrop (typ mid : Z) (called : bool) (out : list owire)
+| HPing (mid : Z) (called : bool) (out : list owire)
+| HSend (typ : Z) (tok : list Z) (code : Z) (opts : opts_t) (pay : list Z) (called : bool) (out : list owire).
 
 Inductive case := Hist (own0 : Z) (h : list hev).
 
@@ -16,6 +19,16 @@ Definition to_ev (e : hev) : ev :=
   | HReq t m tok c ro b _ _ => Req t m tok c ro b
   | HAge ms => Age ms
   | HTick _ => Tick
+  | HDrop t m _ _ => Drop t m
+  | HPing m _ _ => Ping m
+  | HSend t tok c o p _ _ => Send t tok c o p
+  end.
+
+(* precondition of the model's [Req]: the message is not an empty confirmable one (a ping) *)
+Definition wf_hev (e : hev) : bool :=
+  match e with
+  | HReq t _ tok c ro _ _ _ => negb ((t =? 0) && (c =? 0) && (blen tok =? 0) && (blen ro =? 0))
+  | _ => true
   end.
 
 Definition wire_agrees (w : wire) (o : owire) : bool :=
@@ -27,12 +40,14 @@ Definition obs_agrees (o : obs) (e : hev) : bool :=
   | HReq _ _ _ _ _ _ called out => Bool.eqb (o_called o) called && list_rel wire_agrees (o_out o) out
   | HAge _ => true
   | HTick out => list_rel wire_agrees (o_out o) out
+  | HDrop _ _ called out | HPing _ called out | HSend _ _ _ _ _ called out =>
+      Bool.eqb (o_called o) called && list_rel wire_agrees (o_out o) out
   end.
 
 Fixpoint hist_agrees (s : st) (h : list hev) : bool :=
   match h with
   | [] => true
-  | e :: r => let '(s1, o) := step s (to_ev e) in obs_agrees o e && hist_agrees s1 r
+  | e :: r => let '(s1, o) := step s (to_ev e) in wf_hev e && obs_agrees o e && hist_agrees s1 r
   end.
 
 Definition agrees (c : case) : bool := match c with Hist own0 h => hist_agrees (init own0) h end.
@@ -42,6 +57,9 @@ Definition to_oev (e : hev) : oev :=
   | HReq t m _ _ _ _ called out => {| k := KReq; typ := t; mid := m; ms := 0; called := called; out := out |}
   | HAge d => {| k := KAge; typ := 0; mid := 0; ms := d; called := false; out := [] |}
   | HTick out => {| k := KTick; typ := 0; mid := 0; ms := 0; called := false; out := out |}
+  | HDrop t m called out => {| k := KOther; typ := t; mid := m; ms := 0; called := called; out := out |}
+  | HPing m called out => {| k := KOther; typ := 0; mid := m; ms := 0; called := called; out := out |}
+  | HSend t _ _ _ _ called out => {| k := KOther; typ := t; mid := 0; ms := 0; called := called; out := out |}
   end.
 
 (* C20 wire clause, evaluated on the same histories: for a FRESH request carrying a No-Response
